@@ -153,6 +153,8 @@ def own(ctx, o, eff):
                 conds = facts.node_conditions(prog, f, w.node, ctx.typer, expand=False) + \
                     facts.node_conditions(prog, f, w.node, ctx.typer, expand=True)
                 key = w.node.args[0] if isinstance(w.node, ast.Call) and w.node.args else None
+                if isinstance(w.node, ast.Call) and isinstance(w.node.func, ast.Name) and w.node.func.id == 'setattr' and len(w.node.args) >= 2:
+                    key = w.node.args[1]            # setattr(obj, name, value)
                 okc = key is not None and isinstance(key, ast.Name) and any(
                     facts.cond_is(t, p, f"{key.id}.startswith('_')", False) is not None for t, p in conds)
                 recv_super = isinstance(w.node, ast.Call) and isinstance(w.node.func, ast.Attribute) and \
@@ -400,8 +402,32 @@ class _Parts:
             x = self.ex.expand(e, at)
             if not same(x, e):
                 return self.parts(x, at, depth + 1)
+            via = self._callee_parts(e, at, depth)
+            if via is not None:
+                return via
             return [('all', x)]
         return None
+
+    def _callee_parts(self, call, at, depth):
+        """parts of `g(a, ..)` for a non-recursive module function g whose single return value is a list it builds from its parameters
+        (literal + extend/append): the callee's parts with the arguments substituted"""
+        if not isinstance(call.func, ast.Name) or call.keywords or depth > 6:
+            return None
+        g = self.ctx.prog.funcs.get(f"{self.f.module.name}.{call.func.id}")
+        if g is None or g is self.f or len(g.params) != len(call.args):
+            return None
+        if any(isinstance(n, ast.Call) and isinstance(n.func, ast.Name) and n.func.id == g.name for n in ast.walk(g.node)):
+            return None
+        rets = [n for n in walk_no_nested(g.node) if isinstance(n, ast.Return)]
+        if len(rets) != 1 or rets[0].value is None:
+            return None
+        inner = _Parts(self.ctx, g)
+        ps = inner.parts(rets[0].value, cfg_of(g).node_of(rets[0]), depth + 1)
+        if ps is None:
+            return None
+        sub = {p: self.ex.expand(a, at) for p, a in zip(g.params, call.args)}
+        from sa.flow import subst
+        return [(k, subst(pe, sub)) for k, pe in ps]
 
     def _name(self, e, at, depth):
         name = e.id
@@ -764,7 +790,7 @@ def _walk_form(ctx, f, raw, pub):
     for ci in ctx.cg.calls_in(f):
         c = ci.node
         if ci.kind == 'call' and isinstance(c, ast.Call) and isinstance(c.func, ast.Attribute) and isinstance(c.func.value, ast.Name) and \
-                c.func.value.id == f.self_name and not c.args:
+                c.func.value.id == f.self_name and all(isinstance(a, ast.Name) for a in c.args) and not c.keywords:
             for g in ci.targets:
                 if g is not None and g is not f and g.kind == 'method' and g.cls == f.cls and g.self_name:
                     cands.append((g, {}, c))
@@ -777,8 +803,11 @@ def _walk_form(ctx, f, raw, pub):
         def is_rec(call, v=None, g=g):
             fn = call.func
             if id(g) in method_form:
+                # further arguments (an accumulator handed down) must be the method's own parameters, passed on unchanged
                 return isinstance(fn, ast.Attribute) and unmangle(fn.attr) == unmangle(g.name) and isinstance(fn.value, ast.Name) and \
-                    (v is None or fn.value.id == v) and not call.args
+                    (v is None or fn.value.id == v) and \
+                    [a.id if isinstance(a, ast.Name) else None for a in call.args] == list(g.params[1:1 + len(call.args)]) and \
+                    len(call.args) == len(g.params) - 1
             nm = fn.id if isinstance(fn, ast.Name) else (unmangle(fn.attr) if isinstance(fn, ast.Attribute) else None)
             if nm != unmangle(g.name) or not call.args:
                 return False
@@ -841,6 +870,14 @@ def _walk_form(ctx, f, raw, pub):
                 elif isinstance(st, ast.AugAssign) and isinstance(st.op, ast.Add):
                     x = st.value
                 if x is not None and any(isinstance(n, ast.Call) and is_rec(n, v) for n in ast.walk(x)):
+                    rc.append(i)
+                # accumulator handed down: acc.append(v); rec(v, acc) / v.rec(acc)
+                if isinstance(st, ast.Expr) and isinstance(st.value, ast.Call) and is_rec(st.value, v) and \
+                        any(isinstance(a, ast.Name) and a.id in g.params for a in st.value.args) and \
+                        any(isinstance(b, ast.Expr) and (match(f"$acc.append({v})", b.value) or {}).get('acc') is not None and
+                            isinstance(match(f"$acc.append({v})", b.value)['acc'], ast.Name) and
+                            match(f"$acc.append({v})", b.value)['acc'].id in [a.id for a in st.value.args if isinstance(a, ast.Name)]
+                            for b in body):
                     rc.append(i)
             if ap and rc:
                 if ap[0] > rc[0]:
@@ -1024,6 +1061,17 @@ def closure(ctx, o):
                     done = True
                 elif ylds and not any_rec and not any(isinstance(n, (ast.While, ast.For)) for n in ast.walk(g.node)):
                     o.refute(g, g.node, f.qual, "all_parents does not walk the whole parent chain starting at the direct parent")
+                    done = True
+    if not done:
+        # self-recursion on lists:  x = self.parent; if x is None: return []; return [x] + x.<same>()
+        fx = Expander(prog, f, ctx.typer, inline=False)
+        for r_ in [n for n in walk_no_nested(f.node) if isinstance(n, ast.Return) and n.value is not None]:
+            m = match("[$x] + $y.$m()", r_.value)
+            if m and isinstance(r_.value.right, ast.Call) and isinstance(r_.value.right.func, ast.Attribute) and \
+                    unmangle(r_.value.right.func.attr) in (unmangle(f.name), 'all_parents') and same(m['x'], m['y']):
+                x = fx.expand(m['x'], cfg_of(f).node_of(r_))
+                if match(f"{s}.parent", x) or match(f"{s}._Task__parent", x):
+                    o.site(f, r_, "[self.parent] + self.parent.<same>() (empty when there is no parent)")
                     done = True
     if not done:
         # iterative form:  cur = self.parent; while cur is not None [..]: acc.append(cur); cur = cur.parent
